@@ -492,7 +492,7 @@ def variant_descent(facts, roles, f, cs):
             for p in vps:
                 e = strip_refs(b.xtrace(t["args"][p - 1]))
                 if e[0] == "arg" and e[1] in assign:
-                    nxt.append(assign[e[1]] if e[1] == p else None)
+                    nxt.append(assign[e[1]])   # a whole parameter handed on (possibly in the other position): its kind is known
                 elif e[0] == "agg" and e[1].get("adt") == "serde_json::Value":
                     nxt.append(e[1]["variant"])
                 else:
